@@ -14,7 +14,8 @@ def plan(tier, seed):
           ("h_filter_in_str", t), ("h_stats_clause", t), ("h_stats_two_clauses", t), ("h_stats_b_without_bounds", t), ("h_stats_in_clause", t),
           ("h_stats_not_in_clause", t), ("h_cats_clause", t), ("h_cats_two_clauses", t), ("h_cats_in_clause", t), ("h_cats_label_typing", t), ("h_cats_bool_label", t), ("h_cats_in_text", t), ("h_cats_same_column", t), ("h_unknown_filter_column", t),
           ("h_row_groups_and", 120 if tier == "quick" else 400), ("h_row_groups_or2", 120 if tier == "quick" else 400),
-          ("h_row_groups_or3", 160 if tier == "quick" else 600)]
+          ("h_row_groups_or3", 160 if tier == "quick" else 600),
+          ("h_row_groups_composition", 160 if tier == "quick" else 600)]
     if tier == "thorough":
         hs.append(("h_stats_two_columns_partial", 600))
     jobs = [ch("C05", F, h, to, FUN, env=dict(VERIF_SLEN=1 if tier == "quick" else 2)) for h, to in hs]
